@@ -591,7 +591,7 @@ func randBytes(r R, n int) string {
 func famPanic(o *Out, r R, tier string) {
 	n, maxLen := 3000, 4096
 	if tier == "thorough" {
-		n, maxLen = 60000, 1 << 20
+		n, maxLen = 12000, 1 << 18
 	}
 	guard := func(kind, desc string, f func()) {
 		ok := true
